@@ -55,7 +55,11 @@ class HessianUpdater(ABC):
 
         for attr in ("h", "h_inv"):
             m = getattr(self, attr)
-            setattr(self, f"_{attr}_init", None if m is None else m.copy())
+            setattr(
+                self,
+                f"_{attr}_init",
+                None if m is None else np.array(m, dtype=float),
+            )
             setattr(self, attr, None if m is None else m[:, idxs][idxs, :])
 
         for attr in ("s", "y"):
